@@ -364,6 +364,75 @@ def make_raising(exc_name, arg_kind):
     return _cache[name]
 
 
+VALUE_KINDS = ["scalar0d", "len-raises", "lock", "generator", "tuple-keyed-dict", "huge-int", "set", "bytes", "nan", "file-handle"]
+
+
+def unusual_value(kind):
+    """A legal Python value of a kind that users do put into a context (fresh object per call)."""
+    import threading as _th
+    import numpy as _np
+    if kind == "scalar0d":
+        return _np.asarray(3.5)                # Sized by ABC registration, len() raises TypeError
+    if kind == "len-raises":
+        class OddSized:
+            def __len__(self):
+                raise TypeError("verif: length is not defined for this object")
+
+            def __repr__(self):
+                return "OddSized()"
+        return OddSized()
+    if kind == "lock":
+        return _th.Lock()                      # cannot be deep-copied or pickled
+    if kind == "generator":
+        return (i for i in range(3))           # cannot be copied; must not be consumed by an observer
+    if kind == "tuple-keyed-dict":
+        return {(0, 1): 2.5, (1, 0): 3.0}      # not a JSON object (keys)
+    if kind == "huge-int":
+        return 10 ** 5000                      # str() / json.dumps raise ValueError (int max str digits)
+    if kind == "set":
+        return {1, 2, 3}
+    if kind == "bytes":
+        return b"raw\x00bytes"
+    if kind == "nan":
+        return float("nan")
+    if kind == "file-handle":
+        import os as _os
+        return open(_os.devnull, "rb")
+    raise ValueError(kind)
+
+
+def make_value_writer(kind, key="w"):
+    """Operation that passes its input through and stores an unusual value under the declared context key `key`."""
+    name = "VerifValueWriter_%s_%s" % (kind.replace("-", "_"), key)
+    if name not in _cache:
+        def _process_logic(self, data):
+            self._notify_context_update(key, unusual_value(kind))
+            return FloatDataType(data.data)
+
+        def context_keys(cls):
+            return [key]
+        _cache[name] = type(name, (FloatOperation,), {"_process_logic": _process_logic, "context_keys": classmethod(context_keys),
+                                                       "__doc__": "Stores an unusual but legal value in the context."})
+    return _cache[name]
+
+
+class VerifMissingField(KeyError):
+    """A user-defined lookup error raised without arguments."""
+
+
+def make_raising_noargs(exc_name):
+    """Operation raising exc_name() -- an exception constructed WITHOUT arguments."""
+    name = "VerifRaisingNoArgs_" + exc_name
+    if name not in _cache:
+        cls = {"KeyError": KeyError, "VerifMissingField": VerifMissingField, "ValueError": ValueError, "IndexError": IndexError,
+               "StopIteration": StopIteration, "OSError": OSError}[exc_name]
+
+        def _process_logic(self, data):
+            raise cls
+        _cache[name] = type(name, (FloatOperation,), {"_process_logic": _process_logic, "__doc__": "Raises an exception that carries no argument."})
+    return _cache[name]
+
+
 def failing_transport(fail_at):
     """An in-memory transport whose publish() raises on the fail_at-th call (0-based) -- a full outbox, a lost connection."""
     from semantiva.execution.transport import InMemorySemantivaTransport
